@@ -1014,6 +1014,33 @@ Proof. destruct (cbor_decode_r b) as [[v r]| |]; eauto. Qed.
 Theorem cbor_decode_all_total b : {v | cbor_decode_all b = Some v} + {cbor_decode_all b = None}.
 Proof. destruct (cbor_decode_all b) as [v|]; [left; exists v; reflexivity | right; reflexivity]. Qed.
 
+(* corollaries used by the layers above *)
+Corollary cbor_roundtrip_canonical v :
+  wf_ipld v = true -> in_budget v = true -> canon v = v ->
+  cbor_decode_all (cbor_encode v) = Some v.
+Proof. intros WF B C. rewrite cbor_roundtrip by assumption. rewrite C. reflexivity. Qed.
+
+Lemma gas_cost_canon v : gas_cost (canon v) = gas_cost v.
+Proof.
+  induction v as [| | | | | l IH | m IH |] using ipld_ind'; try reflexivity.
+  - cbn [canon]. rewrite !gas_cost_list. unfold gas_list.
+    induction IH as [|x l Hx _ IHl]; cbn [map fold_right]; [reflexivity|]. rewrite Hx, IHl. reflexivity.
+  - rewrite canon_map_eq, !gas_cost_map.
+    rewrite (gas_entries_perm gas_cost _ _ (sort_map_perm _)). unfold gas_entries.
+    induction IH as [|x m Hx _ IHm]; cbn [map fold_right on_snd fst snd]; [reflexivity|]. rewrite Hx, IHm. reflexivity.
+Qed.
+
+Corollary in_budget_canon v : in_budget (canon v) = in_budget v.
+Proof. unfold in_budget. rewrite gas_cost_canon. reflexivity. Qed.
+
+(* a block that decodes and whose value is re-encoded: the bytes are those of the canonical value *)
+Corollary cbor_decode_encode_stable v :
+  wf_ipld v = true -> in_budget v = true ->
+  cbor_decode_all (cbor_encode (canon v)) = Some (canon v).
+Proof.
+  intros WF B. rewrite cbor_encode_canon. apply cbor_roundtrip; assumption.
+Qed.
+
 (* ------------------------------------------------------------------ *)
 (* non-vacuity and documented corner cases                             *)
 
